@@ -152,11 +152,12 @@ def _grid_train(fam, cfg, xs, d, ref, redraw):
     on_code = (d == lo[None]) | (d == hi[None])
   bad = ~on_code & fin[None]
   exact = (lo == hi) & (eps == 0)
+  clipped = np.asarray(ref["clipped"])
   for j in np.nonzero(bad.any(axis=0))[0]:
     j = int(j)
     dj = d[bad[:, j], j]
     cnt = int(dj.size)
-    if exact[j]:
+    if exact[j] and not clipped[j]:
       # an input that is a code must come back unchanged in every draw
       if fam == "po2" and cnt <= 3 and np.all(np.abs(dj) == 2.0 * abs(c[j])):
         kind = "next_power_on_uniform_tie"
@@ -222,7 +223,7 @@ def _grid_train(fam, cfg, xs, d, ref, redraw):
                       "tolerance %.3g" % (x[j], c[j], p, n_, m_, tl_), j))
   p = np.where(w > 0, (c - lo) / np.where(w > 0, w, 1.0), 0.0)
   stats = {"interior": bool(((p > 0.05) & (p < 0.95)).any()),
-           "exact_code": bool(exact.any()),
+           "exact_code": bool((exact & ~clipped).any()),
            "clipped": bool(np.asarray(ref["clipped"]).any())}
   return fails, stats
 
